@@ -501,13 +501,22 @@ pub fn w3c_sexp(w: &World, pres: &W3CPresentation, provs: &[Prov], agg: &AggProv
                 format!("({} {})", sx::s(k), val)
             })
             .collect();
-        let (method, pv) = match vc.get_credential_presentation_proof() {
-            Ok(pv) => {
+        // the proof of the entry: the FIRST AnonCreds data integrity proof it carries (selected here on the document,
+        // not by the library's accessor); it counts only when it is a credential presentation proof
+        let proofs: Vec<Value> = match &v["proof"] {
+            Value::Array(a) => a.clone(),
+            Value::Null => vec![],
+            p => vec![p.clone()],
+        };
+        let first = proofs.iter().find_map(|p| serde_json::from_value::<anoncreds::data_types::w3c::proof::DataIntegrityProof>(p.clone()).ok().map(|d| (p.clone(), d)));
+        let chosen = match &first {
+            Some((pj, d)) if pj["proofPurpose"] == "assertionMethod" => d.get_credential_presentation_proof().ok().map(|pv| (pj.clone(), pv.clone())),
+            _ => None,
+        };
+        let (method, pv) = match chosen.as_ref().map(|(pj, pv)| (pj, pv)).ok_or(()) {
+            Ok((pj, pv)) => {
                 let pvv = serde_json::to_value(pv).unwrap();
-                let method = match &v["proof"] {
-                    Value::Array(a) => a.iter().find_map(|p| p["verificationMethod"].as_str().map(|s| s.to_string())).unwrap_or_default(),
-                    p => p["verificationMethod"].as_str().unwrap_or("").to_string(),
-                };
+                let method = pj["verificationMethod"].as_str().unwrap_or("").to_string();
                 let id = json!({"schema_id": pvv["schema_id"], "cred_def_id": pvv["cred_def_id"], "rev_reg_id": pvv["rev_reg_id"], "timestamp": pvv["timestamp"]});
                 let prov = provs.get(i).cloned().unwrap_or(Prov { cred: 0, used_link: 0, pos: i, nrp: None, altered: true });
                 (method, format!("(({} {}))", ident_sexp(&id), subproof_sexp(w, &pvv["sub_proof"], &prov)))
